@@ -4660,7 +4660,17 @@ XPath::NodeTester::NodeTester(
         break;
 
     case XPathExpression::eNODETYPE_NODE:
-        m_testFunction = &NodeTester::testNode;
+        // On the attribute axis, node() must not select the
+        // attributes that are namespace declarations.
+        if (stepType == XPathExpression::eFROM_ATTRIBUTES ||
+            stepType == XPathExpression::eMATCH_ATTRIBUTE)
+        {
+            m_testFunction = &NodeTester::testAttributeTotallyWild;
+        }
+        else
+        {
+            m_testFunction = &NodeTester::testNode;
+        }
         break;
 
     case XPathExpression::eNODETYPE_ROOT:
